@@ -67,12 +67,15 @@ Decide(c, k, ymK, ymPrevStep, ymLastOut) ==
               [] b = 4 -> Year(ymK) > Year(ymPrevStep) /\ Year(ymK) - Year(ymLastOut) >= f
               [] b = 5 -> ymK > ymPrevStep /\ ymK - ymLastOut >= f
               [] OTHER -> FALSE          \* (BASIC > 5 is refused when the schedule is built; never generated)
+EffFreq(c) == IF c.freq = None \/ c.freq < 1 THEN 1 ELSE c.freq
+Mode(c) == IF c.write = "yes" THEN "always" ELSE IF c.write = "no" THEN "never"
+           ELSE IF c.basic = None THEN "never" ELSE CASE c.basic = 0 -> "never" [] c.basic = 3 -> "nth" [] c.basic = 4 -> "yearly" [] c.basic = 5 -> "monthly" [] OTHER -> "never"
 VARIABLES k,        \* the report step whose block is being read
           cfg,      \* configuration of snapshot k so far
           events,   \* report steps with a restart output event
           saves,    \* report steps with SAVE
           ym,       \* sequence: month index (12 * year + month - 1) of report steps 0..k
-          decided,  \* report step -> the configuration that decided it (for the properties below)
+          decided,  \* report step -> the mode and frequency that decided it (for the properties below)
           nkw, hist
 vars == <<k, cfg, events, saves, ym, decided, nkw, hist>>
 Max(S) == CHOOSE x \in S : \A y \in S : y <= x
@@ -84,6 +87,7 @@ SchedOps == [op : {"RPTSCHED"}, nothing : BOOLEAN, restart : {None, 0, 1, 2, 3},
 SolOps == [op : {"RPTSOL"}, restart : {None, 1, 2}, mn : MnChoices]
 SaveOp == [op |-> "SAVE"]
 StartMonths == {0, 10, 11}
+Dms == {0, 1, 2, 7, 12, 14, 25}       \* months from one report step to the next (0: later in the same month)
 Init == /\ k = 0 /\ nkw = 0 /\ saves = {} /\ decided = Empty
         /\ \E sol \in {<<>>} \cup {<<o>> : o \in RstOps \cup SolOps} \cup {<<a, b>> : a \in SolOps, b \in RstOps} \cup {<<b, a>> : a \in SolOps, b \in RstOps},
               m0 \in StartMonths :
@@ -103,32 +107,29 @@ Advance(dm) ==
            d == Decide(cfg, k + 1, ymK, ym[k + 1], ym[LastOutBefore(events, k + 1) + 1])
        IN /\ events' = IF d THEN events \cup {k + 1} ELSE events
           /\ ym' = Append(ym, ymK)
-    /\ decided' = [j \in DOMAIN decided \cup {k + 1} |-> IF j = k + 1 THEN cfg ELSE decided[j]]
+    /\ decided' = [j \in DOMAIN decided \cup {k + 1} |-> IF j = k + 1 THEN [mode |-> Mode(cfg), f |-> EffFreq(cfg)] ELSE decided[j]]
     /\ k' = k + 1 /\ nkw' = 0
     /\ hist' = [hist EXCEPT !.blocks = Append(@, [ops |-> hist.cur, dm |-> dm]), !.cur = <<>>]
     /\ UNCHANGED <<cfg, saves>>
 Next == \/ \E o \in RstOps \cup SchedOps \cup {SaveOp} : Kw(o)
-        \/ \E dm \in {0, 1, 2, 7, 12, 14, 25} : Advance(dm)
+        \/ \E dm \in Dms : Advance(dm)
 Spec == Init /\ [][Next]_vars
 \* what a simulator asks (Schedule::write_rst_file)
 Writes(j) == j \in events \/ j \in saves
 \* ---- design properties
-EffFreq(c) == IF c.freq = None \/ c.freq < 1 THEN 1 ELSE c.freq
-Mode(c) == IF c.write = "yes" THEN "always" ELSE IF c.write = "no" THEN "never"
-           ELSE IF c.basic = None THEN "never" ELSE CASE c.basic = 0 -> "never" [] c.basic = 3 -> "nth" [] c.basic = 4 -> "yearly" [] c.basic = 5 -> "monthly" [] OTHER -> "never"
 Steps == {j \in 1..k : j \in DOMAIN decided}
 \* every step decided by "always" is written, none decided by "never" has an event
-AlwaysNever == \A j \in Steps : (Mode(decided[j]) = "always" => j \in events) /\ (Mode(decided[j]) = "never" => j \notin events)
+AlwaysNever == \A j \in Steps : (decided[j].mode = "always" => j \in events) /\ (decided[j].mode = "never" => j \notin events)
 \* BASIC=3: exactly the multiples of FREQ
-Nth == \A j \in Steps : Mode(decided[j]) = "nth" => (j \in events <=> j % EffFreq(decided[j]) = 0)
+Nth == \A j \in Steps : decided[j].mode = "nth" => (j \in events <=> j % decided[j].f = 0)
 \* BASIC=4 / 5: only first steps of a year / month, spaced by at least FREQ years / months from the previous output event
 Spaced == \A j \in Steps \cap events :
-            /\ Mode(decided[j]) = "yearly" => Year(ym[j + 1]) > Year(ym[j]) /\ Year(ym[j + 1]) - Year(ym[LastOutBefore(events, j) + 1]) >= EffFreq(decided[j])
-            /\ Mode(decided[j]) = "monthly" => ym[j + 1] > ym[j] /\ ym[j + 1] - ym[LastOutBefore(events, j) + 1] >= EffFreq(decided[j])
+            /\ decided[j].mode = "yearly" => Year(ym[j + 1]) > Year(ym[j]) /\ Year(ym[j + 1]) - Year(ym[LastOutBefore(events, j) + 1]) >= decided[j].f
+            /\ decided[j].mode = "monthly" => ym[j + 1] > ym[j] /\ ym[j + 1] - ym[LastOutBefore(events, j) + 1] >= decided[j].f
 \* with FREQ <= 1 no year / month that has a first report step is skipped
 NoneSkipped == \A j \in Steps :
-            /\ Mode(decided[j]) = "yearly" /\ EffFreq(decided[j]) = 1 /\ Year(ym[j + 1]) > Year(ym[j]) => j \in events
-            /\ Mode(decided[j]) = "monthly" /\ EffFreq(decided[j]) = 1 /\ ym[j + 1] > ym[j] => j \in events
+            /\ decided[j].mode = "yearly" /\ decided[j].f = 1 /\ Year(ym[j + 1]) > Year(ym[j]) => j \in events
+            /\ decided[j].mode = "monthly" /\ decided[j].f = 1 /\ ym[j + 1] > ym[j] => j \in events
 \* an output event, once recorded, stays: later input never changes earlier decisions
 EventsGrow == [][events \subseteq events' /\ saves \subseteq saves']_vars
 =============================================================================
